@@ -43,7 +43,7 @@ def cases(tier, seed):
                 out.append(dict(cfg=dict(env="op", n=n, prize_type=pt), gp=dict(prize_type=pt), B=16, s=rnd.randrange(10**6)))
             for dist in ("normal", "center"):
                 pass
-    for cfg in envzoo.sched_configs(tier) + [c for c in envzoo.select_configs(tier) if c["env"] in ("flp", "mcp")]:
+    for cfg in envzoo.sched_configs(tier) + [c for c in envzoo.select_configs(tier) if c["env"] in ("flp", "mcp", "dpp", "mdpp")]:
         for r in range(reps * 2):
             out.append(dict(cfg=cfg, B=16, s=rnd.randrange(10**6)))
     for items, sets, k, mn, mx in ((6, 4, 2, 1, 2), (8, 6, 3, 2, 6), (20, 10, 4, 3, 3)):
